@@ -70,7 +70,7 @@ def main():
             rc, out = sh("./check %s --tier %s" % (c, tier), cwd=VERIF, env=envc, timeout=7200)
             lines = [l for l in out.splitlines() if l.startswith(("VIOLATION", "  failed clauses", "KNOWN-FINDING", "MACHINERY", c + " "))]
             res["checks"][c] = {"exit": rc, "caught": rc == 1 and any(l.startswith("VIOLATION") for l in lines), "lines": lines[:6]}
-        sh("git checkout -- . && git clean -fdq", cwd=wt)
+        sh("git reset -q --hard HEAD && git clean -fdq", cwd=wt)
         rc_clean, out_clean = sh("/venv/bin/python -W ignore %s" % os.path.abspath(demo), cwd=wt, env=env, timeout=1800)
         if rc_clean != 0:      # once more (a heavily loaded machine can time a demo out)
             rc_clean, out_clean = sh("/venv/bin/python -W ignore %s" % os.path.abspath(demo), cwd=wt, env=env, timeout=1800)
